@@ -55,7 +55,8 @@ def operand_rule(ctx, rule, p, targets):
         bad = []
         tolerated = []
         for w in s.writes:
-            if f.name in ALLOWED_MUTATORS and w.root == "self":
+            if f.name in ALLOWED_MUTATORS and w.root == "self" and w.kind in ("item-store", "rebind", "mutator-call") \
+                    or (f.name == "__setitem__" and w.root == "self"):
                 tolerated.append(w)
                 continue
             if opt_in(w, f):
@@ -70,7 +71,10 @@ def operand_rule(ctx, rule, p, targets):
                 if key in seen:
                     continue
                 seen.add(key)
-                ctx.bad(rule, f"{cname}[{w.root}]", f"the operation may modify its operand `{w.root}`: {w.kind} {w.text}"
+                extra = ""
+                if w.kind == "buffer-store" and f.name in ALLOWED_MUTATORS:
+                    extra = " - a documented mutator must rebind the variable; writing into the numpy buffer also changes every spectrum that shares it (views from isel/flatten/shallow copies)"
+                ctx.bad(rule, f"{cname}[{w.root}]", f"the operation may modify its operand `{w.root}`: {w.kind} {w.text}" + extra
                         + (f" (via {w.via})" if w.via else ""), f.loc(w.node), derived=w.text,
                         required="operands are left unchanged; results are new objects")
         else:
